@@ -1018,6 +1018,10 @@ def check_memory_forms(run, ctx):
                                     run.bad('C05-K1', '%s/%s/oversize-effects' % (key, POL[p]), 'a value larger than max_memory is stored or displaces other entries '
                                             '(stored %d, own key removed %d, other entries removed %d, queue +%d -%d, fit tests %d) in %s' % (d['S+'], d['Srepl'], d['S-'], d['Q>'], d['Qrem'], d['cmp:fit'], fn.name), site=fn.name,
                                             oracle='oversize => no net entry, no other eviction')
+                                elif (d['Q-back'] + d['Q-front'] >= 1) and (d['Q>'] + d['Q<'] == 0):
+                                    run.bad('C05-K1', '%s/%s/oversize-pops-foreign-slot' % (key, POL[p]), 'the oversize path of %s pops an end of the order queue although it has not pushed its '
+                                            'key on this path: the slot removed belongs to another key, whose entry stays stored and can never be evicted again' % fn.name, site=fn.name,
+                                            oracle='a positional queue removal on the oversize path takes back the push made on the same path')
                                 elif (d['Q>'] >= 1 and d['Q-front'] >= 1) or (d['Q<'] >= 1 and d['Q-back'] >= 1):
                                     run.bad('C05-K1', '%s/%s/oversize-wrong-queue-slot' % (key, POL[p]), 'the oversize path of %s takes its key out of the store but pops the *other* end of the '
                                             'queue than the one it just pushed the key to: the oldest key leaves the queue while its entry stays stored (it can never be evicted again) and the '
